@@ -24,6 +24,12 @@ SCRIPT_RULE = ("well-formed DDL scripts: random walks of 1..14 statements from t
                "multi-table with positional adds interleaved across tables; each loaded in one call, one statement per call (random keyword case "
                "and type aliases) and a random 3-way split; then a malformed text (5 kinds) must be refused without changing the model; hand-written "
                "witness scripts first. non-trivial = more than one statement; distinct by (config, script)")
+EXPORT_RULE = ("export suite: the full MySQL type list (17 types) with and without DEFAULT; several foreign keys between the same tables and a self "
+               "reference; keys/columns/tables created and dropped again; random schemas (1..5 tables, comments, enum, reserved-word names, 0..3 "
+               "foreign keys per table) x table selections {all, subset, reordered with duplicates and unknown names, only unknown} x 3 dialects. "
+               "Every case: MermaidJsErd / MermaidJsLive / ArvoSchema texts = Lean model; ERD and Avro field arrays re-derived from the reference "
+               "schema; Live URL decoded independently; every Avro document parsed with encoding/json. non-trivial = every case; distinct by "
+               "(config, schema, selection)")
 PAIR_TB = [
     "hand-written model Impl/{Element,Diff,Emit,Render,ReaderMysql}.lean, tied by correspondence on generated pairs only",
     "regenerated facts: statement templates of sql-templates/*.go (factgen, go/ast) are the ones the model renders with",
@@ -209,5 +215,32 @@ PROPS = {
         "assumptions": ["folder exists and is writable unless the case says otherwise", "timestamps of successive writes strictly increase (1 s resolution)"],
         "explanation": "Proved for all names: sanitised name part is [a-z0-9_]*; file set/contents of writeFiles; ReadPath = filter of the name-sorted "
                        "listing. OS and clock are outside the proof (partial by nature).",
+    },
+
+    "C14": {
+        "level": "proof",
+        "lean_modules": ["SqlizeModel.Props.C14"],
+        "theorems": ["Sqlize.C14.select_all", "Sqlize.C14.select_named", "Sqlize.C14.line_per_column", "Sqlize.C14.block_per_table", "Sqlize.C14.relation_once", "Sqlize.C14.relation_exists", "Sqlize.C14.live_is_url"],
+        "suites": [{"name": "export"}],
+        "corr_points": ["MermaidJsErd", "MermaidJsLive"],
+        "rule": EXPORT_RULE,
+        "trusted_base": COMMON_TB + PAIR_TB + ["base64 URL encoding re-implemented in Lean (Base/Base64.lean) for the Live URL"],
+        "assumptions": ["identifiers are ASCII"],
+        "explanation": "Proved of the model for every state: selection, block/line structure, one relation per linked pair, Live = URL + base64url(ERD). "
+                       "Tied by exact text correspondence and by re-deriving the ERD from the reference schema on every case.",
+    },
+    "C15": {
+        "level": "proof",
+        "lean_modules": ["SqlizeModel.Props.C15"],
+        "theorems": ["Sqlize.C15.other_dialects_nothing", "Sqlize.C15.one_document_per_table", "Sqlize.C15.one_field_per_column", "Sqlize.C15.nullable_iff_default"],
+        "suites": [{"name": "export"}],
+        "corr_points": ["ArvoSchema"],
+        "rule": EXPORT_RULE,
+        "trusted_base": COMMON_TB + PAIR_TB + ["encoding/json marshalling of the Go values (field order, sorted map keys, omitempty) is modelled as text; every Go document is additionally parsed with encoding/json by the harness",
+                                               "MySQL type classes (EvalType) are re-derived from the canonical type text"],
+        "assumptions": ["identifiers need no JSON escaping beyond quote and backslash"],
+        "explanation": "Proved of the model for every state: nothing for non-mysql dialects, one document per selected table in load order, one field per "
+                       "column in table order, nullable union exactly when the column has a default. Tied by exact JSON text correspondence on the full "
+                       "type list with/without defaults and on random schemas/selections.",
     },
 }
